@@ -68,7 +68,7 @@ def run(ctx):
                 os.remove(os.path.join(corpus, fn))
             with open(os.path.join(corpus, "00_replay.ops"), "w") as f:
                 f.write(open(ctx.replay_in).read())
-        N = 0 if ctx.replay_in else ctx.budget(2500, 25000)
+        N = 0 if ctx.replay_in else ctx.budget(2000, 25000)
         rc, out = ctx.run_cmd([binp, "-test.run", "^TestVerifE3HTTP$", "-test.count=1", "-test.timeout=3000s"],
                               timeout=3200, env={"VERIF_SEED": ctx.seed, "VERIF_N": N, "VERIF_OUT": ctx.work,
                                                  "VERIF_REPO": REPO, "VERIF_CORPUS": corpus})
